@@ -93,6 +93,21 @@ def cscd(rng, std, pk):
                    vendor_specific_identifier_extension=rng.randint(0, 2 ** 64 - 1))
     params = {"code_set": rng.randrange(16), "association": rng.randrange(4), "designator_type": 3,
               "designator_length": 16 if naa == 6 else 8, "designator": des}
+    if rng.random() < 0.35:
+        # designators that are byte strings of the caller (as a parsed Device Identification page hands them out:
+        # bytearrays), shorter than the 20-byte field they go into
+        kind = rng.choice([0, 1, 8])
+        rb = lambda k: bytearray(rng.randrange(0x20, 0x7F) for _ in range(k))
+        if kind == 0:
+            des = {"vendor_specific": rb(rng.choice([4, 12, 20]))}
+            n = len(des["vendor_specific"])
+        elif kind == 1:
+            des = {"t10_vendor_id": rb(8), "vendor_specific_id": rb(rng.choice([0, 4, 12]))}
+            n = 8 + len(des["vendor_specific_id"])
+        else:
+            des = {"scsi_name_string": rb(rng.choice([3, 7, 15])) + bytearray(1)}
+            n = len(des["scsi_name_string"])
+        params.update(designator_type=kind, designator_length=n, designator=des)
     if rng.random() < 0.4:
         # the dictionary comes from a decoded VPD 83h designation descriptor: it also carries that page's own keys
         params.update(piv=1, protocol_identifier=rng.choice([5, 6, 15]))
@@ -270,7 +285,7 @@ def run(chk, replay=None):
             b = (lambda K=K, op=op, kw=kwl: K(op, **kw))
             b.cdb_args = {}
             record(fmt, cls, setname, b, inp)
-            if i % 3 == 0:
+            if i % 3 == 0 or any(isinstance(v, bytearray) for cd in tl for v in cd[pk]["designator"].values()):
                 # ... and builds a second command from the very same descriptor objects (which the library may have
                 # annotated): it must be the same list again
                 b2 = (lambda K=K, op=op, kw=kwl: K(op, **kw))
